@@ -55,7 +55,7 @@ def run_sweep(tier, modules=None, use_cache=True, log=True):
                 print('  swept %-40s %6.1fs %s' % (item[0], secs, res.get('crash', '')[:80]), flush=True)
         # longest first
         pool.pool_map(_task, [(m, tier, nmax, limit) for m in todo], None, limit + 90 if tier == 'quick' else limit * 2 + 60, prog,
-                      deadline=t_start + 480 if tier == 'quick' else None)
+                      deadline=t_start + 420 if tier == 'quick' else None)
         if log:
             print('  sweep of %d modules: %.1fs' % (len(todo), time.time() - t0), flush=True)
         # keep only the newest few cache generations
